@@ -94,6 +94,15 @@ def gen(ctx):
     for t in ["$[00]", "$[01]", "$[-0]", "$[-01]", "$[0]", "$[10]", "$[-1]", "$[]", "$[1,]", "$[,1]", "$['a',]", "$[1, ]", "$[ ]", "$[*,]", "$[?@.a,]", "$[1:2,]", "$[1,,2]",
               "$[?@[01]]", "$[?@[]]", "$..[]", "$[1 2]"]:
         cases.append({"kind": "syntax", "text": t})
+    # complete: every integer text of up to 4 digits over {0, 1, 9}, signed and unsigned, in four positions
+    import itertools
+    for n in range(1, 5):
+        for ds in itertools.product("019", repeat=n):
+            for sign in ("", "-"):
+                v = sign + "".join(ds)
+                for form in ["$[{}]", "$[1, {}]", "$..[{}]", "$[?@[{}]]"]:
+                    cases.append({"kind": "inttext", "text": form.format(v), "v": v})
+    ctx.exhaustive_spaces.append("index texts: every -?[019]{1,4} in four positions (960 queries), against the RFC 9535 int grammar and the Lean model of the leading-zero test")
     return cases
 
 
@@ -115,13 +124,35 @@ SYNTAX_EXPECT = {"$[0]": True, "$[10]": True, "$[-1]": True}
 def evaluate(ctx, cases):
     reqs, meta = [], []
     for c in cases:
+        if c["kind"] == "inttext":
+            reqs.append({"op": "syn.indextext", "v": c["v"]})
+            meta.append(c)
         if c["kind"] == "tree":
             reqs.append({"op": "q.typed", "path": c["ast"]})
             meta.append(c)
     outs = ctx.driver.run(reqs, jobs=ctx.jobs)
-    tmap = {id(c): m["wt"] for c, m in zip(meta, outs)}
+    tmap = {id(c): m.get("wt") for c, m in zip(meta, outs)}
     gmap = {id(c): m for c, m in zip(meta, outs)}
+    import re as _re
     for c in cases:
+        if c["kind"] == "inttext":
+            g = gmap[id(c)]
+            o = qeval.compile_outcome(c["text"])
+            rfc = bool(_re.fullmatch(r"0|-?[1-9][0-9]*", c["v"]))       # RFC 9535: int = "0" / (["-"] DIGIT1 *DIGIT)
+            ctx.case(c["text"], True, sample=c)
+            ctx.count(f"inttext:rfc={rfc}")
+            refused = "err" in o
+            if refused != g["refused"] or not g["shape"]:
+                ctx.mismatch("syn.indextext", c, {"refused": refused}, g)
+            if g["refused"] != (not g["rfc"]) or g["rfc"] != rfc:
+                ctx.violation("model: the leading-zero test differs from the RFC int grammar (proof obligation leading_zero_gate)", c, g, rfc)
+            if rfc and refused:
+                ctx.violation("an index that is an RFC 9535 int must compile", c, o, "compiles")
+            if not rfc and not refused:
+                ctx.violation("an index with a leading zero (or -0) must be rejected at compile time", c, "compiled", "JSONPathSyntaxError")
+            if refused and o.get("family") != "jsonpath":
+                ctx.violation("rejection must be a JSONPath error", c, o, "JSONPathError family")
+            continue
         if c["kind"] == "tree":
             wt = tmap[id(c)]
             r = qgen.R(ctx.rng, blanks=ctx.rng.random() < 0.3, canonical=ctx.rng.random() < 0.3)
